@@ -23,12 +23,16 @@ pub fn run(ctx: Ctx) -> ! {
     // (era, form) -> (accepted plutus cases, explored cases with mem > max, explored with steps > max, accepted at exactly max)
     let stats: Mutex<BTreeMap<(String, String), [u64; 4]>> = Mutex::new(BTreeMap::new());
     let eras = [Era::Alonzo, Era::Babbage, Era::Conway];
-    let sum = explore::sweep(&eras, &|base| base.starts_with("B3") || base.starts_with("B4"), bounds, &|b, v, nd| {
+    let visit = |b: &crate::txlab::Built, v: &Verdict, nd: usize| {
         if matches!(v, Verdict::Undecodable(_) | Verdict::DecodePanicked(_)) {
             return;
         }
         let Some(view) = TxView::parse(&b.tx) else { return };
-        if !view.has_plutus_scripts() {
+        // Plutus scripts in the witness set, or (base B3ref) on a reference input that the
+        // transaction names and the UTxO holds
+        let refscript = b.utxo.iter().any(|u| u.tx_id == crate::bases::REFSCRIPT.tx_id() && u.ix == crate::bases::REFSCRIPT.ix)
+            && view.body().map_get(18).and_then(|n| n.untagged().as_array().map(|a| a.iter().any(|i| i.to_vec() == crate::bases::REFSCRIPT.node().to_vec()))).unwrap_or(false);
+        if !view.has_plutus_scripts() && !refscript {
             return;
         }
         let n = params::numbers(b.era);
@@ -62,7 +66,18 @@ pub fn run(ctx: Ctx) -> ! {
                 v,
             );
         }
-    });
+    };
+    let mut sum = explore::sweep(&eras, &|base| base.starts_with("B3"), bounds, &visit);
+    // the same spend with the script on a reference input (Babbage, Conway): every single
+    // deviation and pair, same oracle
+    crate::quiet::silence_stderr();
+    for era in [Era::Babbage, Era::Conway] {
+        let base = crate::bases::b3ref(era);
+        let devs = crate::devs::deviations(&base, bounds.wits_single);
+        let part = explore::explore_base(&base, &base.label(), &devs, &crate::txlab::build, bounds, &visit);
+        sum = sum.merge_pub(part);
+    }
+    crate::quiet::restore_stderr();
     let s = stats.lock().unwrap().clone();
     for (era, form) in [("alonzo", "list"), ("babbage", "list"), ("conway", "list"), ("conway", "map")] {
         let e = s.get(&(era.to_string(), form.to_string())).copied().unwrap_or_default();
@@ -72,7 +87,7 @@ pub fn run(ctx: Ctx) -> ! {
     }
     found.flush(&ctx);
     let mut cov = sum.coverage(&format!(
-        "TxLab base B3 (two PlutusV1-locked inputs, two redeemers) of Alonzo, Babbage, Conway and base B4 (the same spend locked by a PlutusV2 script with no V1 script in the witness set, Babbage at a slot of the PlutusV2 epochs) with every single deviation and pair of deviations of different dimensions ({}); budgets: sum(mem) and sum(steps) in {{max-1, max, max+1, 2^64-1}} plus every redeemer = 2^63, list form and (Conway) map form; the oracle runs on every ACCEPTED case that carries Plutus scripts; non-trivial = decoded, distinct by Blake2b of (tx, UTxO, environment)",
+        "TxLab base B3 (two PlutusV1-locked inputs, two redeemers) of Alonzo, Babbage, Conway and base B3v2 (the same spend locked by a PlutusV2 script with no V1 script in the witness set, Babbage and Conway at a slot of the PlutusV2 epochs) and base B3ref (B3v2 with the PlutusV2 script on a reference input instead of the witness set, Babbage and Conway) with every single deviation and pair of deviations of different dimensions ({}); budgets: sum(mem) and sum(steps) in {{max-1, max, max+1, 2^64-1}} plus every redeemer = 2^63, list form and (Conway) map form; the oracle runs on every ACCEPTED case that carries Plutus scripts; non-trivial = decoded, distinct by Blake2b of (tx, UTxO, environment)",
         bounds.describe()
     ));
     cov.insert(
